@@ -84,7 +84,94 @@ def extract_index(ctx=None):
     return pygen.write_if_changed(pygen._lean_path("GenIndex.lean"), index_source())
 
 
-SOURCES = {"index": index_source}
+# ---------------------------------------------------------------------------------------------------------------------
+# C17: the combination loops of QCOW2VTBackend.show and RamfileBackend._show
+
+QCOW2_PY = "avocado_i2n/states/qcow2.py"
+RAMFILE_PY = "avocado_i2n/states/ramfile.py"
+NAMES = ("list", "Name")
+
+
+def show_specs():
+    """Atom table of both loops: `params.objects('images')` -> `images` (the image names, in order); the per-image
+    listing `super().show(image_params, object=object)` / `cls.image_state_backend.show(image_params, object=object)`
+    with `image_params = params.object_params(image_name)` substituted -> `imageStates image_name`; the statement
+    `image_params["images"] = image_name` is pinned to the empty action (it prepares the argument of the listing call:
+    its meaning is inside that atom).  Translated: `states = None`, the loop, the `is None` test with both branches
+    (`list(…)` / the comprehension with its membership test; `set(…)` / `.intersection(…)`), the `None -> []` / `set()`
+    fallback behind the loop."""
+    vt = Spec(
+        "genVtShow", binders=[("images", "List Name"), ("imageStates", "Name → List Name")],
+        params={"params": None, "object": None}, ret=NAMES, monad="pure",
+        atoms={"params.objects('images')": ("images", NAMES),
+               "super().show(params.object_params(image_name), object=object)": ("(imageStates image_name)", NAMES)},
+        stmts={"image_params['images'] = image_name": ""}, local_types={"states": ("opt", NAMES)},
+        type_defaults={"Name": "[]"},
+        doc="`QCOW2VTBackend.show` of avocado_i2n/states/qcow2.py from `states = None` to its return, translated statement by statement (`images` = "
+            "`params.objects('images')`, `imageStates i` = what `super().show` lists for image `i`)")
+    ram = Spec(
+        "genRamImagesStates", binders=[("images", "List Name"), ("imageStates", "Name → List Name")],
+        params={"params": None, "object": None}, ret=("opt", ("set", "Name")), monad="pure",
+        atoms={"params.objects('images')": ("images", NAMES),
+               "cls.image_state_backend.show(params.object_params(image_name), object=object)":
+                   ("(imageStates image_name)", NAMES)},
+        stmts={"image_params['images'] = image_name": ""}, local_types={"images_states": ("opt", ("set", "Name"))},
+        type_defaults={"Name": "[]"},
+        doc="the combination part of `RamfileBackend._show` of avocado_i2n/states/ramfile.py (from `images_states = None` to "
+            "the `None -> set()` fallback; the value of `images_states` behind it), translated statement by statement; a "
+            "Python set is a list of which only membership is observed")
+    return vt, ram
+
+
+def _slice(path, qualname, var, to_end=False):
+    """the statements of `qualname` from `<var> = None` up to (and including) the last top-level statement in front of
+    the next one that does not mention `var` in a store position … precisely: from `<var> = None` to the last top-level
+    statement that ASSIGNS `var`; as a function with the same parameters that returns `var`.  Fails closed."""
+    tree = ast.parse(open(path).read(), filename=path)
+    fn = pygen.find_function(tree, qualname)
+    body = fn.body
+
+    def assigns(st):
+        return any(isinstance(x, ast.Name) and isinstance(x.ctx, ast.Store) and x.id == var for x in ast.walk(st))
+    starts = [i for i, st in enumerate(body) if isinstance(st, ast.Assign) and len(st.targets) == 1
+              and isinstance(st.targets[0], ast.Name) and st.targets[0].id == var
+              and isinstance(st.value, ast.Constant) and st.value.value is None]
+    if len(starts) != 1:
+        raise Unsupported(f"{qualname}: `{var} = None` occurs {len(starts)} times at the top level")
+    last = max(i for i, st in enumerate(body) if assigns(st))
+    for st in body[:starts[0]]:
+        if assigns(st):
+            raise Unsupported(f"{qualname}: {var!r} is assigned in front of `{var} = None`")
+    import copy
+    new = copy.deepcopy(fn)
+    new.decorator_list = []
+    if to_end:                                              # … or to the end of the function (its own return)
+        new.body = copy.deepcopy(body[starts[0]:])
+    else:
+        new.body = copy.deepcopy(body[starts[0]:last + 1]) + [ast.Return(value=ast.Name(id=var, ctx=ast.Load()))]
+    ast.fix_missing_locations(new)
+    # the rest of the function may only READ the variable
+    return new, pygen.module_constants(tree)
+
+
+def show_source(qcow2_path=None, ramfile_path=None):
+    qcow2_path = qcow2_path or pygen._src("C17_QCOW2_SRC", QCOW2_PY)
+    ramfile_path = ramfile_path or pygen._src("C17_RAMFILE_SRC", RAMFILE_PY)
+    vt, ram = show_specs()
+    fn, consts = _slice(qcow2_path, "QCOW2VTBackend.show", "states", to_end=True)   # (in front: one log call)
+    d1 = pygen.translate(fn, vt, consts)
+    fn, consts = _slice(ramfile_path, "RamfileBackend._show", "images_states")
+    d2 = pygen.translate(fn, ram, consts)
+    return pygen.render_file("harness/pygen_pxindex.py:extract_show (called by harness/props/c17.py:extract) from "
+                             + QCOW2_PY + " and " + RAMFILE_PY, ["I2N.Model.Show"], "I2N.Extracted.GenShow", ["I2N.Show"],
+                             [d1, d2])
+
+
+def extract_show(ctx=None):
+    return pygen.write_if_changed(pygen._lean_path("GenShow.lean"), show_source())
+
+
+SOURCES = {"index": index_source, "show": show_source}
 
 if __name__ == "__main__":
     import sys
